@@ -58,28 +58,28 @@ class FPv:
         if isinstance(o, MInt): return o.t
         raise TypeError(type(o))
     def __add__(s, o):
-        if isinstance(o, SymSeq): return NotImplemented
+        if isinstance(o, (SymSeq, _Elementwise)): return NotImplemented
         return FPv(s.m, z3.fpAdd(s.m.rm, s.t, s._l(o)))
     def __radd__(s, o):
-        if isinstance(o, SymSeq): return NotImplemented
+        if isinstance(o, (SymSeq, _Elementwise)): return NotImplemented
         return FPv(s.m, z3.fpAdd(s.m.rm, s._l(o), s.t))
     def __sub__(s, o):
-        if isinstance(o, SymSeq): return NotImplemented
+        if isinstance(o, (SymSeq, _Elementwise)): return NotImplemented
         return FPv(s.m, z3.fpSub(s.m.rm, s.t, s._l(o)))
     def __rsub__(s, o):
-        if isinstance(o, SymSeq): return NotImplemented
+        if isinstance(o, (SymSeq, _Elementwise)): return NotImplemented
         return FPv(s.m, z3.fpSub(s.m.rm, s._l(o), s.t))
     def __mul__(s, o):
-        if isinstance(o, SymSeq): return NotImplemented
+        if isinstance(o, (SymSeq, _Elementwise)): return NotImplemented
         return FPv(s.m, z3.fpMul(s.m.rm, s.t, s._l(o)))
     def __rmul__(s, o):
-        if isinstance(o, SymSeq): return NotImplemented
+        if isinstance(o, (SymSeq, _Elementwise)): return NotImplemented
         return FPv(s.m, z3.fpMul(s.m.rm, s._l(o), s.t))
     def __truediv__(s, o):
-        if isinstance(o, SymSeq): return NotImplemented
+        if isinstance(o, (SymSeq, _Elementwise)): return NotImplemented
         return FPv(s.m, z3.fpDiv(s.m.rm, s.t, s._l(o)))
     def __rtruediv__(s, o):
-        if isinstance(o, SymSeq): return NotImplemented
+        if isinstance(o, (SymSeq, _Elementwise)): return NotImplemented
         return FPv(s.m, z3.fpDiv(s.m.rm, s._l(o), s.t))
     def lt(s, o): return z3.fpLT(s.t, s._l(o))
     def le(s, o): return z3.fpLEQ(s.t, s._l(o))
@@ -125,28 +125,28 @@ class SMv:
         raise TypeError(type(o))
     def _r(s, t): return SMv(s.m, t * (1 + s.m.delta()))
     def __add__(s, o):
-        if isinstance(o, SymSeq): return NotImplemented
+        if isinstance(o, (SymSeq, _Elementwise)): return NotImplemented
         return s._r(s.t + s._l(o))
     def __radd__(s, o):
-        if isinstance(o, SymSeq): return NotImplemented
+        if isinstance(o, (SymSeq, _Elementwise)): return NotImplemented
         return s._r(s._l(o) + s.t)
     def __sub__(s, o):
-        if isinstance(o, SymSeq): return NotImplemented
+        if isinstance(o, (SymSeq, _Elementwise)): return NotImplemented
         return s._r(s.t - s._l(o))
     def __rsub__(s, o):
-        if isinstance(o, SymSeq): return NotImplemented
+        if isinstance(o, (SymSeq, _Elementwise)): return NotImplemented
         return s._r(s._l(o) - s.t)
     def __mul__(s, o):
-        if isinstance(o, SymSeq): return NotImplemented
+        if isinstance(o, (SymSeq, _Elementwise)): return NotImplemented
         return s._r(s.t * s._l(o))
     def __rmul__(s, o):
-        if isinstance(o, SymSeq): return NotImplemented
+        if isinstance(o, (SymSeq, _Elementwise)): return NotImplemented
         return s._r(s._l(o) * s.t)
     def __truediv__(s, o):
-        if isinstance(o, SymSeq): return NotImplemented
+        if isinstance(o, (SymSeq, _Elementwise)): return NotImplemented
         return s._r(s.t / s._l(o))
     def __rtruediv__(s, o):
-        if isinstance(o, SymSeq): return NotImplemented
+        if isinstance(o, (SymSeq, _Elementwise)): return NotImplemented
         return s._r(s._l(o) / s.t)
     def lt(s, o): return s.t < s._l(o)
     def le(s, o): return s.t <= s._l(o)
@@ -206,12 +206,33 @@ class SymSeq:
     def __truediv__(s, o): return s._map(lambda e: s._num(e) / o)
 
 
-class Repeat:
+class _Elementwise:
+    """elementwise arithmetic with a scalar distributes over repeat / concatenate (a restructured but equivalent way to build the array)"""
+    def _lift(self, f): raise NotImplementedError
+    def __mul__(s, o): return s._lift(lambda e: e * o)
+    def __rmul__(s, o): return s._lift(lambda e: o * e)
+    def __add__(s, o): return s._lift(lambda e: e + o)
+    def __radd__(s, o): return s._lift(lambda e: o + e)
+    def __sub__(s, o): return s._lift(lambda e: e - o)
+    def __truediv__(s, o): return s._lift(lambda e: e / o)
+
+
+def _ew(x, f):
+    """apply the scalar function f to every element of x (scalar, SymSeq, Repeat or Concat)"""
+    if isinstance(x, (Repeat, Concat)): return x._lift(f)
+    if isinstance(x, SymSeq): return x._map(lambda e: f(x._num(e)))
+    if isinstance(x, MInt): return f(x.m.from_int(x)) if hasattr(x, 'm') else f(x)
+    return f(x)
+
+
+class Repeat(_Elementwise):
     def __init__(self, x, times): self.x, self.times = x, times
+    def _lift(self, f): return Repeat(_ew(self.x, f), self.times)
 
 
-class Concat:
+class Concat(_Elementwise):
     def __init__(self, parts): self.parts = list(parts)
+    def _lift(self, f): return Concat([_ew(q, f) for q in self.parts])
 
 
 class NPStub:
